@@ -154,12 +154,12 @@ contract(ENG, props=['C17'], name='engine-include-dirs', blocks_only=True,
              ensures=[SEARCHED.format(n=N_)],
              modifies=['deduplicated_dirs[*]'], lemmas=['dup_found'])},
          lemmas=['dup_found'],
-         loops={'1': dict(idx='ci', modifies=['deduplicated_dirs[*]'],
+         loops={'@for i in range(len(#0': dict(idx='ci', modifies=['deduplicated_dirs[*]'],
                           inv=['ci <= ' + N_, SEARCHED.format(n='ci'),
                                'forall(lambda a: implies(0 <= a and a < ci and no_dup_upto(' + D_ + ', a, ' + N_ + '), '
                                'kept_before(' + D_ + ', ' + N_ + ', a) < kept_before(' + D_ + ', ' + N_ + ', ci)))',
                                'kept_before(' + D_ + ', ' + N_ + ', ci) >= 0']),
-                '1.0': dict(idx='cj',
+                '@for i in range(len(#0/0': dict(idx='cj',
                             inv=['i + 1 + cj <= ' + N_ + ' or cj == 0', 'not is_duplicate',
                                  'left_path == path_real(' + D_ + '[i])',
                                  'no_dup_upto(' + D_ + ', i, i + 1 + cj)'])})
